@@ -16,7 +16,14 @@ pub enum Key {
     I(i64),
     U(u64),
     I8(i8),
+    I16(i16),
+    I32(i32),
+    U8(u8),
+    U16(u16),
+    U32(u32),
+    I128(i128),
     U128(u128),
+    NewtypeStr(String),
     Bool(bool),
     Char(char),
     F64(f64),
@@ -113,6 +120,13 @@ impl Serialize for Key {
             Key::I(x) => s.serialize_i64(*x),
             Key::U(x) => s.serialize_u64(*x),
             Key::I8(x) => s.serialize_i8(*x),
+            Key::I16(x) => s.serialize_i16(*x),
+            Key::I32(x) => s.serialize_i32(*x),
+            Key::U8(x) => s.serialize_u8(*x),
+            Key::U16(x) => s.serialize_u16(*x),
+            Key::U32(x) => s.serialize_u32(*x),
+            Key::I128(x) => s.serialize_i128(*x),
+            Key::NewtypeStr(x) => s.serialize_newtype_struct("N", x.as_str()),
             Key::U128(x) => s.serialize_u128(*x),
             Key::Bool(x) => s.serialize_bool(*x),
             Key::Char(x) => s.serialize_char(*x),
@@ -273,7 +287,19 @@ pub fn gen_key(r: &mut Rng, o: &DynOpts) -> Key {
     if !o.exotic_keys || r.chance(2, 3) {
         return Key::Str(if r.chance(2, 3) { r.pick(KEY_POOL).to_string() } else { rand_text(r) });
     }
-    match r.below(8) {
+    match r.below(16) {
+        8 => Key::I16(r.next() as i16),
+        9 => Key::I32(r.next() as i32),
+        10 => Key::U8(r.next() as u8),
+        11 => Key::U16(r.next() as u16),
+        12 => Key::U32(r.next() as u32),
+        13 => Key::I128(match r.below(4) {
+            0 => i128::MIN,
+            1 => i64::MIN as i128 - 1,
+            2 => -(1i128 << 64),
+            _ => (r.next() as i64 as i128) << r.below(64),
+        }),
+        14 => Key::NewtypeStr(rand_text(r)),
         0 => Key::I(r.next() as i64 >> r.below(64)),
         1 => Key::U(r.next() >> r.below(64)),
         2 => Key::I8(r.next() as i8),
@@ -415,6 +441,13 @@ pub fn key_text(k: &Key) -> Option<String> {
         Key::I(x) => x.to_string(),
         Key::U(x) => x.to_string(),
         Key::I8(x) => x.to_string(),
+        Key::I16(x) => x.to_string(),
+        Key::I32(x) => x.to_string(),
+        Key::U8(x) => x.to_string(),
+        Key::U16(x) => x.to_string(),
+        Key::U32(x) => x.to_string(),
+        Key::I128(x) => x.to_string(),
+        Key::NewtypeStr(x) => x.clone(),
         Key::U128(x) => x.to_string(),
         Key::Bool(x) => x.to_string(),
         Key::Char(c) => c.to_string(),
